@@ -46,14 +46,17 @@ func (p *BufferPool) Put(b *bytes.Buffer) {
 // Get 从内存池中获取一个至少 n 字节的缓冲区
 // fetches a buffer from the memory pool, of at least n bytes
 func (p *BufferPool) Get(n int) *bytes.Buffer {
-	var size = Max(int(binaryCeil(uint32(n))), p.begin)
-	if pool, ok := p.shards[size]; ok {
-		b := pool.Get().(*bytes.Buffer)
-		if b.Cap() < size {
-			b.Grow(size)
+	// Requests above the largest pooled size must not go through the uint32 rounding, which wraps.
+	if n <= p.end {
+		var size = Max(int(binaryCeil(uint32(n))), p.begin)
+		if pool, ok := p.shards[size]; ok {
+			b := pool.Get().(*bytes.Buffer)
+			if b.Cap() < size {
+				b.Grow(size)
+			}
+			b.Reset()
+			return b
 		}
-		b.Reset()
-		return b
 	}
 	return bytes.NewBuffer(make([]byte, 0, n))
 }
